@@ -147,6 +147,37 @@ def check_history(h):
     d3 = float(np.max(np.abs(lw3 - lw)))
     if d3 > tol3 or abs((lz3 - lz) - h["beta"] * c) > tol3:
         bad.append(("shift", f"logL+c: weights move by {d3:.3g}, logz moves by {lz3 - lz:.6g} instead of {h['beta'] * c:.6g}"))
+    # the same manager object after its history was REPLACED (update_from_dict / load_state, as a checkpoint load does):
+    # another history with the same number of iterations, other batch sizes and values
+    if T <= 12 and N < 5000:
+        r2 = np.random.default_rng(N * 31 + T)
+        ns2 = list(reversed(h["ns"])) if r2.random() < 0.5 else [int(r2.integers(1, 40)) for _ in range(T)]
+        logl2 = [r2.standard_normal(n) * 3.0 - 1.0 for n in ns2]
+        betas2 = np.sort(r2.random(T))
+        logz2 = r2.standard_normal(T)
+        donor = build_state(logl2, betas2, logz2)
+        if r2.random() < 0.5:
+            sm.update_from_dict(donor.to_dict())
+        else:
+            import contextlib, io, tempfile
+            from tvf.env import OUT
+            (OUT / "tmp").mkdir(parents=True, exist_ok=True)
+            with tempfile.TemporaryDirectory(dir=str(OUT / "tmp")) as td, contextlib.redirect_stdout(io.StringIO()):
+                donor.save_state(os.path.join(td, "d.pkl"))
+                sm.load_state(os.path.join(td, "d.pkl"))
+        b3 = float(r2.random())
+        try:
+            with np.errstate(all="ignore"):
+                lw3, lz3 = sm.compute_logw_and_logz(b3)
+            _, r3n, r3z, _ = mis_ref(logl2, betas2, logz2, b3)
+            if lw3.shape != (sum(ns2),):
+                bad.append(("stale-after-history-replaced", f"after the manager's history was replaced (T={T} iterations, sizes {ns2[:6]}) it returns {lw3.shape[0]} "
+                            f"log-weights for {sum(ns2)} stored samples"))
+            elif float(np.max(np.abs(lw3.astype(LD) - r3n))) > 1e-8 or abs(float(lz3) - float(r3z)) > 1e-8:
+                bad.append(("stale-after-history-replaced", f"after the manager's history was replaced by another one with the same number of iterations the weights are "
+                            f"off by {float(np.max(np.abs(lw3.astype(LD) - r3n))):.3g} (logz by {abs(float(lz3) - float(r3z)):.3g})"))
+        except Exception as e:
+            bad.append(("stale-after-history-replaced", f"after the manager's history was replaced: {type(e).__name__}: {e}"))
     return bad, dict(err=max(e_un, e_n, e_z) / tol, T=T, N=N)
 
 
